@@ -330,6 +330,17 @@ fn voronoi_section(d: &mut Digest, name: &str, v: &Voronoi) {
     for c in v.cell_face_connections() {
         d.u(*c as u64);
     }
+    // what the cells answer through their accessors (they depend on the index a cell stores about itself)
+    for c in v.cells() {
+        for j in c.neighbour_ids(v) {
+            d.u(j as u64);
+        }
+        d.u(u64::MAX);
+        for j in c.face_indices(v) {
+            d.u(*j as u64);
+        }
+        d.u(u64::MAX - 1);
+    }
     d.end(name);
 }
 
